@@ -1,4 +1,10 @@
-"""C12 — external functions are called as bound: right arguments, order and timing."""
+"""C12 — external functions are called as bound: right arguments, order and timing.
+
+Strengthened twice against seeded changes: (C12) call sites inside string evaluation with a pending line (see
+REGRESSION); (C12b) WHERE in the content tree an unbound external stands — three families of stories (weave-wrapper
+programs, gen_ink programs with an inserted call, story JSON with chains of unnamed / named / named-only containers)
+x host set-ups x entries, oracle "the first continue fails iff an external of the compiled story is missing", all part
+of the engine correspondence sample (see the section "WHERE the call stands" and PLACE_REGRESSION)."""
 import collections, copy, json, random, re
 import vlib, engine, gen_ink
 from props import hist
